@@ -229,7 +229,7 @@ def context_events(path, index):
 
 # ------------------------------------------------------------------ replay and verdicts
 
-def replay_events(harness, events, scratch, module='Trace'):
+def replay_events(harness, events, scratch, module='Trace', any_event=False):
     """Re-executes events in a fresh process and validates the re-recorded mini trace with TLC.
     Returns (new_events, failed_codes_of_last_event)."""
     rid = hashlib.sha1(json.dumps(events, sort_keys=True).encode()).hexdigest()[:12]
@@ -241,7 +241,8 @@ def replay_events(harness, events, scratch, module='Trace'):
         raise HarnessError('replay failed: ' + tail(p.stdout + p.stderr))
     r = validate_chunk(out, scratch, module)
     new = [json.loads(x) for x in open(out)]
-    codes = [c for (i, c) in r['bads'] if i == len(new)]
+    # a graph point is re-executed through several events (variants, entry points): any of them counts
+    codes = [c for (i, c) in r['bads'] if any_event or i == len(new)]
     return new, codes
 
 
